@@ -315,6 +315,77 @@ fn check_accept_all(net: &Net, k: usize, st: &mut Stats) {
     }
 }
 
+/// edge-oriented queries: every ordered pair of distinct, non-adjacent edges whose destination edge can be reached,
+/// single-via with k = 3: at most k routes, pairwise distinct, each a walk from the origin edge to the destination edge
+/// with correctly accumulated state (the wrapper composes origin edge + vertex route + destination edge per route)
+fn check_edge_oriented(net: &Net, st: &mut Stats) {
+    let m = net.m();
+    if m < 3 {
+        return;
+    }
+    let idx = net.hash_idx() as usize;
+    let w = if idx % 2 == 0 { crate::props::c01::speed_turn_world(net) } else { World::distance(net.clone()) };
+    let si = match w.si() {
+        Ok(si) => si,
+        Err(_) => return,
+    };
+    let sims = [Some(Sim::AcceptAll), Some(Sim::EdgeCos(0.99)), None];
+    let algo = Algo::SingleVia { k: 3, under: Box::new(if idx % 3 == 0 { Algo::AStar(Some(1.0)) } else { Algo::Dijkstra }), sim: sims[idx % 3].clone(), term: None };
+    for o in 0..m {
+        for d in 0..m {
+            if o == d || net.edges[o].1 == net.edges[d].0 {
+                continue;
+            }
+            // the destination edge must be reachable from the head of the origin edge
+            if !reachable(net, net.edges[o].1, true, &|_| true)[net.edges[d].0] {
+                continue;
+            }
+            st.evaluations += 1;
+            st.transitions += 1;
+            st.traces += 1;
+            let orient = Orient::Edge { o, d: Some(d) };
+            let out = run_search(&si, &algo, &orient, false, &json!({}));
+            let comp = "ksp_single_via.edge_oriented".to_string();
+            let size = net.size() * 10 + 3;
+            let case = || json!({"edge_oriented": true, "net": net, "origin_edge": o, "destination_edge": d, "algo": algo, "speed_world": idx % 2 == 0});
+            match &out {
+                Outcome::Panic(p) => st.violation(&comp, "no_panic", size, || p.clone(), case),
+                Outcome::NoPath(e) | Outcome::Terminated(e) | Outcome::OtherErr(e) => st.violation(&comp, "answerable_query_is_not_an_error", size, || e.clone(), case),
+                Outcome::Ok { routes, .. } => {
+                    if routes.is_empty() || routes.len() > 3 {
+                        st.violation(&comp, "between_one_and_k_routes", size, || format!("k = 3 but {} routes", routes.len()), case);
+                    } else {
+                        st.pass("between_one_and_k_routes");
+                    }
+                    if routes.len() >= 2 {
+                        st.nontrivial += 1;
+                    }
+                    let ids: Vec<Vec<usize>> = routes.iter().map(|r| route_ids(r)).collect();
+                    for i in 0..ids.len() {
+                        for j in i + 1..ids.len() {
+                            if ids[i] == ids[j] {
+                                st.violation(&comp, "no_two_routes_share_an_edge_sequence", size, || format!("routes #{} and #{} are both {:?}", i, j, ids[i]), case);
+                            }
+                        }
+                    }
+                    for (ri, r) in routes.iter().enumerate() {
+                        let mut bad = route_structure(net, &ids[ri], &orient, false);
+                        if bad.is_empty() {
+                            bad.extend(route_accumulation(&w, r, &orient, false));
+                        }
+                        if bad.is_empty() {
+                            st.pass("every_route_valid_loop_free_accumulated");
+                        }
+                        for (cl, dtl) in bad {
+                            st.violation(&comp, cl, size, || format!("route #{} {:?}: {}", ri, ids[ri], dtl), case);
+                        }
+                    }
+                }
+            }
+        }
+    }
+}
+
 pub fn worker(args: &[String]) -> i32 {
     // args: <tier> <single_via|yens|accept_all>
     let tier = if args.first().map(|s| s.as_str()) == Some("thorough") { Tier::Thorough } else { Tier::Quick };
@@ -335,6 +406,9 @@ pub fn worker(args: &[String]) -> i32 {
                 let c = space.case(i);
                 if i as usize % space.algos.len() == 0 {
                     st.states += 1;
+                    if mode != "yens" {
+                        check_edge_oriented(&c.net, st);
+                    }
                 }
                 check_case(&c, st);
                 if i == 1234 || i == 77 {
